@@ -56,7 +56,8 @@ impl Ctx {
                         return if status.code() == Some(1) { Some(last_ev.unwrap_or(0)) } else { None };
                     }
                     Ok(None) => {
-                        if st.elapsed().as_secs() > if self.code.ends_with("-hang") { 15 } else { 60 } {
+                        let cpu = crate::orchestrate::cpu_secs(child.id()).unwrap_or(0.0);
+                        if cpu > 15.0 || st.elapsed().as_secs() > 300 {
                             let _ = child.kill();
                             let _ = child.wait();
                             return if self.code.ends_with("-hang") { Some(0) } else { None };
